@@ -45,11 +45,13 @@ type linkOut struct {
 	stalled       bool
 	refIn         []byte // types of the packets refpeer received, in order
 	refOut        []byte // types of the packets refpeer sent
+	replies       map[byte][]byte
 }
 
 type refTap struct {
 	mu      sync.Mutex
 	in, out []byte
+	replies map[byte][]byte // last inbound packet of type 31 / 33 (kex replies)
 }
 
 func (t *refTap) attach(cfg *refpeer.Config) {
@@ -57,6 +59,12 @@ func (t *refTap) attach(cfg *refpeer.Config) {
 		t.mu.Lock()
 		if len(p) > 0 {
 			t.in = append(t.in, p[0])
+			if p[0] == 31 || p[0] == 33 {
+				if t.replies == nil {
+					t.replies = map[byte][]byte{}
+				}
+				t.replies[p[0]] = append([]byte{}, p...)
+			}
 		}
 		t.mu.Unlock()
 	}
@@ -90,7 +98,7 @@ func runLink(goSide func(nc net.Conn) error, refSide func(nc net.Conn, cfg *refp
 		<-done
 	}
 	tap.mu.Lock()
-	out.refIn, out.refOut = tap.in, tap.out
+	out.refIn, out.refOut, out.replies = tap.in, tap.out, tap.replies
 	tap.mu.Unlock()
 	return out
 }
@@ -1015,11 +1023,17 @@ func TestC29(t *testing.T) {
 		t.Fatalf("harness trouble: %s", inconc[0])
 	}
 
+	// shared-secret encoding classes (pinned / searched ephemerals)
+	c29KClasses(c, t)
+	if t.Failed() {
+		return
+	}
+
 	// DH-GEX: boundary grid (quick: a slice of it per shard, thorough: all 15^3) and random triples
 	gexKex := []string{"diffie-hellman-group-exchange-sha256", "diffie-hellman-group-exchange-sha1"}
 	idx, completed := 0, 0
 	sk, sn := ev.Shard()
-	stride := ev.Scale(4, 1) // quick: every 4th triple, spread over the shards
+	stride := ev.Scale(6, 1) // quick: every 6th triple, spread over the shards
 	for _, mn := range gexBoundary {
 		for _, nn := range gexBoundary {
 			for _, mx := range gexBoundary {
@@ -1047,7 +1061,7 @@ func TestC29(t *testing.T) {
 	if ev.Thorough() {
 		c.Exhaustive("DH-GEX (min, n, max) boundary grid 15^3", idx)
 	} else {
-		c.Exhaustive("DH-GEX (min, n, max) boundary grid 15^3, every 4th triple", idx/stride)
+		c.Exhaustive("DH-GEX (min, n, max) boundary grid 15^3, every 6th triple", idx/stride)
 	}
 	near := func(rt *rapid.T, label string) uint32 {
 		switch rapid.IntRange(0, 3).Draw(rt, label+"Kind") {
